@@ -485,6 +485,11 @@ def shrink(ctx, case: Case, seed_a: int, seed_b: int, scratch, budget: int = 40)
             out.append(read_tree(target_of(req, res)))
         if out[0] == out[1]:
             return None
+        # a candidate counts only while a difference remains that no finding class explains
+        unexplained = [n for n in sorted(set(out[0]) | set(out[1])) if out[0].get(n) != out[1].get(n)
+                       and not (n in out[0] and n in out[1] and ctx._cls.explain(case, n, out[0][n], out[1][n]))]
+        if not unexplained:
+            return None
         return out
 
     try:
@@ -550,7 +555,8 @@ def report_mismatch(ctx, case: Case, what: str, la: str, lb: str, fa: dict, fb: 
             q, (sa, sb) = sm
             replay["smallest_queries"] = q
             fa, fb = sa, sb
-            differing = [n for n in sorted(set(fa) | set(fb)) if fa.get(n) != fb.get(n)]
+            differing = [n for n in sorted(set(fa) | set(fb)) if fa.get(n) != fb.get(n)
+                         and not (n in fa and n in fb and ctx._cls.explain(case, n, fa[n], fb[n]))]
             replay["differing_files_smallest"] = differing
     replay["diff"] = "\n".join(udiff(fa.get(n, b""), fb.get(n, b""), n, la, lb) for n in differing[:4])
     run.violation(f"{what}: {case.sid} {la} vs {lb}: {differing[:6]}", replay)
@@ -615,6 +621,11 @@ def k3(ctx, scratch):
             plan[1].append(((c.sid, ("split", 1, 2)), c.request(scratch.new(c.sid), split_order=2, rng_seed=2)))
             if ctx.thorough:
                 plan[2].append(((c.sid, ("split", 2, 3)), c.request(scratch.new(c.sid), split_order=3, rng_seed=3)))
+            # ... and listed by the operating system in other orders (injected at pathlib.Path.glob)
+            for lo in ("reverse", "shuffle:1") + (("shuffle:2", "shuffle:3") if ctx.thorough else ()):
+                r = c.request(scratch.new(c.sid), split_order=0)
+                r["listing_order"] = lo
+                plan[0].append(((c.sid, ("listing", lo)), r))
             # stale target directory
             r = c.request(scratch.new(c.sid))
             r["files"] = {**r["files"], **stale_files}
@@ -726,6 +737,9 @@ def k3(ctx, scratch):
             # creation order of the files of the schema / queries directories (hash seed held fixed by
             # comparing only the files no finding class touches when the seed differs)
             compare(c, ("split", 0, 0), ("split", 0, 1), "creation order 0", "creation order 1", "file creation order")
+            for lo in ("reverse", "shuffle:1", "shuffle:2", "shuffle:3"):
+                compare(c, ("split", 0, 0), ("listing", lo), "listing as the OS gives it", f"listing {lo}",
+                        "directory listing order")
             compare(c, ("split", 0, 0), ("split", 1, 2), "creation order 0 seed 0", "creation order 2 seed 1",
                     "file creation order + hash seed", seeds_pair=None, allow_classes=True)
             compare(c, ("split", 0, 0), ("split", 2, 3), "creation order 0 seed 0", "creation order 3 seed 2",
@@ -956,9 +970,47 @@ def k3_schema(ctx, cases, scratch, seeds):
                               {"case": sid, "seeds": ss})
 
 
+def replay(ctx, path: str):
+    """./check C10 quick --replay <file>: regenerate the replay's input (smallest_queries when present) under the
+    recorded hash seeds, in fresh interpreters, and report whether the bytes still differ."""
+    import json
+
+    run = ctx.run
+    d = json.load(open(path))
+    if "schema" not in d or "queries" not in d:
+        run.broken("replay", f"{path} names a correspondence/obligation ({d.get('stage')}), not an input: rerun the check")
+        return
+    ctx._cls = Classifier()
+    seeds = d.get("hashseeds") or [0, 1, 2, 3, 4, 5, 6]
+    sc = scen_gen.Scenario(seed=0, sdl=d["schema"], queries=d.get("smallest_queries") or d["queries"],
+                           config={k: v for k, v in d.get("config", {}).items() if k != "plugins"},
+                           files=d.get("extra_files") or {})
+    case = Case(d.get("case", "replay"), sc, [k for k, v in PLUGINS.items() if v in d.get("config", {}).get("plugins", [])])
+    with workers.Scratch(prefix="c10r-") as scratch:
+        outs = {}
+        for s in seeds:
+            req = case.request(scratch.new("r"))
+            res = run_isolated(req, s)
+            run.count()
+            outs[s] = read_tree(target_of(req, res)) if res.get("ok") else None
+        ref = seeds[0]
+        for s in seeds[1:]:
+            if outs[s] != outs[ref]:
+                fa, fb = outs[ref] or {}, outs[s] or {}
+                differing = [n for n in sorted(set(fa) | set(fb)) if fa.get(n) != fb.get(n)]
+                run.violation(f"replay: PYTHONHASHSEED={ref} vs {s} differ on {differing[:6]}",
+                              {"hashseeds": [ref, s], "differing_files": differing, "schema": sc.sdl, "queries": sc.queries,
+                               "config": case.config(),
+                               "diff": "\n".join(udiff(fa.get(n, b""), fb.get(n, b""), n, f"seed {ref}", f"seed {s}") for n in differing[:4])})
+                return
+        run.sample({"replay": path, "result": "identical bytes for hash seeds " + str(seeds)})
+
+
 # ----------------------------------------------------------------------------------------------- entry
 def run(ctx):
     run = ctx.run
+    if getattr(ctx, "replay", None):
+        return replay(ctx, ctx.replay)
     run.rule = ("K3: each case = (schema, operations, configuration, plugin set) from the shared scenario generator "
                 "and from the C10 stress generator (fragment mixin DAGs, unpacked fragments, large unions, enums, "
                 "custom scalars; `casefold`: fragment names differing only in case); per case: PYTHONHASHSEED 0..N "
